@@ -122,7 +122,7 @@ def build_schema(types):
         In = reg["In"]
         return [InputField("x", Int, default_value=3, python_name="px"), InputField("y", NonNullType(Int), python_name="py"),
                 InputField("e", E, default_value=1, python_name="pe"), InputField("z", In, python_name="pz"),
-                InputField("l", ListType(NonNullType(In)), python_name="pl")]
+                InputField("l", ListType(NonNullType(In)), python_name="pl"), InputField("d", Int, default_value=None, python_name="pd")]
     reg["In"] = InputObjectType("In", infields)
     base = {"Int": Int, "Str": String, "E": E, "In": reg["In"]}
 
